@@ -41,7 +41,8 @@ theorem openFileD_nolink (c : Cfg) (hc : c.posix = false) (flag perm budget : Na
     (hg : getNode c fs (dir name) = .ok pi)
     (hd : (fs.node pi).dir = true)
     (hex : ∀ a, fs.lookup pi (base name) = some a → (fs.node a).dir = false ∧ (fs.node a).isSymlink = false)
-    (hperm : perm.testBit 27 = false) :
+    (hperm : perm.testBit 27 = false)
+    (hdn : fs.lookup pi (base name) = none → dotName (base name) = false) :
     openFileD c flag perm budget fs start name =
       (let t := openTarget fs pi (base name) perm
        match (if c.backend = .tarfs then teLive c (t.1.node t.2) else none) with
@@ -63,7 +64,7 @@ theorem openFileD_nolink (c : Cfg) (hc : c.posix = false) (flag perm budget : Na
     have hn : ((fs.create pi (base name) { mode := perm }).1.node (fs.create pi (base name) { mode := perm }).2).isSymlink = false := by
       rw [create_ino, node_create_new fs pi _ _ hd]; exact hperm
     have hcr' : oCreate flag = true := by simpa [hl] using hcr
-    simp only [openTarget, hl, Bool.false_eq_true, if_false, hn, hcr', Bool.not_true, and_false]
+    simp only [openTarget, hl, Bool.false_eq_true, if_false, hn, hcr', Bool.not_true, and_false, hdn hl]
     generalize (if c.backend = Backend.tarfs then
       teLive c ((fs.create pi (base name) { mode := perm }).1.node (fs.create pi (base name) { mode := perm }).2) else none) = x
     cases x <;> rfl
@@ -74,7 +75,8 @@ theorem openFileD_nolink (c : Cfg) (hc : c.posix = false) (flag perm budget : Na
 theorem openFileD_pre (c : Cfg) (hc : c.posix = false) (flag perm budget : Nat) (fs : FS) (start : List Ino)
     (name : Text) (fs0 : FS) (o : Opened) (h : openFileD c flag perm budget fs start name = (fs0, .ok o)) (hcr : oCreate flag = true) :
     ∃ pi, getNode c fs (dir name) = .ok pi ∧ (fs.node pi).dir = true ∧
-      ∀ a, fs.lookup pi (base name) = some a → (fs.node a).dir = false := by
+      (∀ a, fs.lookup pi (base name) = some a → (fs.node a).dir = false) ∧
+      (fs.lookup pi (base name) = none → dotName (base name) = false) := by
   unfold openFileD at h
   simp only [resolveFrom_impl hc] at h
   cases hg : getNode c fs (dir name) with
@@ -82,12 +84,17 @@ theorem openFileD_pre (c : Cfg) (hc : c.posix = false) (flag perm budget : Nat) 
   | ok pi =>
     simp only [hg, Except.map] at h
     by_cases hd : (fs.node pi).dir = true
-    · refine ⟨pi, rfl, hd, ?_⟩
-      intro a hl
-      simp only [hd, Bool.not_true, Bool.false_eq_true, if_false, hcr, and_false, hl] at h
-      by_cases hda : (fs.node a).dir = true
-      · simp [hda] at h
-      · simpa using hda
+    · refine ⟨pi, rfl, hd, ?_, ?_⟩
+      · intro a hl
+        simp only [hd, Bool.not_true, Bool.false_eq_true, if_false, hcr, and_false, hl] at h
+        by_cases hda : (fs.node a).dir = true
+        · simp [hda] at h
+        · simpa using hda
+      · intro hl
+        simp only [hd, Bool.not_true, Bool.false_eq_true, if_false, hcr, and_false, hl] at h
+        cases hdn : dotName (base name) with
+        | false => rfl
+        | true => simp [hdn] at h
     · simp [hd] at h
 
 
@@ -159,7 +166,7 @@ theorem readText_of_entry (c : Cfg) (hc : c.posix = false) (fs : FS) (p : Text) 
   have hex : ∀ a', fs.lookup pi (base p) = some a' → (fs.node a').dir = false ∧ (fs.node a').isSymlink = false := by
     intro a' h'; rw [hl] at h'; cases h'; exact ⟨hda, hsa⟩
   unfold readText openCore
-  rw [openFileD_nolink c hc 0 0 maxLinks fs [0] p pi (Or.inr (by simp [hl])) hg hd hex (by decide)]
+  rw [openFileD_nolink c hc 0 0 maxLinks fs [0] p pi (Or.inr (by simp [hl])) hg hd hex (by decide) (by simp [hl])]
   simp [openTarget, hl, teLive_none_of_data c _ hdata, newMemFile, oAppend, oTrunc, handleData]
 
 
@@ -185,12 +192,12 @@ theorem writeBack_readText (c : Cfg) (hc : c.posix = false) (fs fs' : FS) (hi : 
         | error e => simp [hod] at ho
         | ok o =>
           rw [hod] at ho
-          obtain ⟨pi, hg, hd, hdir⟩ := openFileD_pre c hc _ _ _ fs [0] p fs0 o hod (by decide)
+          obtain ⟨pi, hg, hd, hdir, hdn⟩ := openFileD_pre c hc _ _ _ fs [0] p fs0 o hod (by decide)
           have hex : ∀ a, fs.lookup pi (base p) = some a → (fs.node a).dir = false ∧ (fs.node a).isSymlink = false :=
             fun a hl => ⟨hdir a hl, hnl pi a hg hl⟩
           obtain ⟨hext, hlk, hda, hsa, hlive, hdp⟩ :=
             openTarget_facts fs hi pi (base p) createPerm hd (by decide) hex
-          rw [openFileD_nolink c hc _ _ _ fs [0] p pi (Or.inl (by decide)) hg hd hex (by decide)] at hod
+          rw [openFileD_nolink c hc _ _ _ fs [0] p pi (Or.inl (by decide)) hg hd hex (by decide) hdn] at hod
           generalize openTarget fs pi (base p) createPerm = tg at hod hext hlk hda hsa hlive hdp
           obtain ⟨g, a⟩ := tg
           simp only [] at hod hext hlk hda hsa hlive hdp
@@ -284,7 +291,7 @@ theorem createEmpty_post (c : Cfg) (hc : c.posix = false) (fs fs1 : FS) (hi : FS
         | error e => simp [hod] at ho
         | ok o =>
           rw [hod] at ho
-          obtain ⟨pi, hg, hd, hdir⟩ := openFileD_pre c hc _ _ _ fs [0] p fs0 o hod (by decide)
+          obtain ⟨pi, hg, hd, hdir, hdn⟩ := openFileD_pre c hc _ _ _ fs [0] p fs0 o hod (by decide)
           have hex : ∀ a, fs.lookup pi (base p) = some a → (fs.node a).dir = false ∧ (fs.node a).isSymlink = false :=
             fun a hl => ⟨hdir a hl, (hnl pi a hg hl).1⟩
           obtain ⟨hext, hlk, hda, hsa, hlive, hdp⟩ :=
@@ -294,7 +301,7 @@ theorem createEmpty_post (c : Cfg) (hc : c.posix = false) (fs fs1 : FS) (hi : FS
             cases hl : fs.lookup pi (base p) with
             | some a => exact (hnl pi a hg hl).2
             | none => simp only []; rw [create_ino, node_create_new fs pi _ _ hd]
-          rw [openFileD_nolink c hc _ _ _ fs [0] p pi (Or.inl (by decide)) hg hd hex (by decide)] at hod
+          rw [openFileD_nolink c hc _ _ _ fs [0] p pi (Or.inl (by decide)) hg hd hex (by decide) hdn] at hod
           generalize openTarget fs pi (base p) createPerm = tg at hod hext hlk hda hsa hlive hdp hte
           obtain ⟨g, a⟩ := tg
           simp only [] at hod hext hlk hda hsa hlive hdp hte
